@@ -28,6 +28,25 @@ def rule_g1(ctx, F):
         ("range starts at or after the previous range's end", "range->start_byte < previous_byte", False),
         ("range does not end before it starts", "range->end_byte < range->start_byte", False),
     ], accept_desc="accepting element i")
+    # every element — empty ranges included — passes both ordering tests before the loop moves on to the next one
+    from flow import GateMonitor, Search as _Search
+    from C06 import incs
+    step = incs(fn, "i")
+    rid = set(fn.ids_named("range")) | set(fn.ids_named("i"))
+    if step:
+        for label, pat in (("every element starts at or after the previous element's end", "range->start_byte < previous_byte"), ("every element ends at or after its start", "range->end_byte < range->start_byte")):
+            mon = GateMonitor(step, [(pat, False)], None, (), kill_fn=lambda src: set(fn.ids_named("range")))
+            mon.label = label
+            sr = _Search(fn, mon)
+            v = sr.run(0)
+            key = "ts_lexer_set_included_ranges:" + label
+            if v is None:
+                ctx.ok("G1", key, "the loop advances to the next range only after `%s` was found false for the current one" % pat)
+            else:
+                ctx.bad("G1", key, "ts_lexer_set_included_ranges moves on to the next range without `%s` having been tested (false) for the current one: some lists that are not ordered / "
+                        "non-overlapping are accepted and every tree then reports them" % pat, {"path": sr.render_path(v.path)[-5:]})
+    else:
+        ctx.bad("G1", "ts_lexer_set_included_ranges:loop-step", "the validation loop's `i++` was not found")
     # loop shape: i from 0 by 1, range = &ranges[i], previous_byte from 0
     ids = fn.ids_named("i")
     ds = [d for i in ids for d in fn.defs(i)]
